@@ -359,6 +359,39 @@ def check(run):
                 run.instance("R10", where_, f"`{ast.unparse(c_)[:70]}`: sign flips {flips}{' (other entries not constant)' if unknown else ''}", True, nontrivial=not unknown)
     run.instance("R10", "trimesh/creation.py", f"hand-written diagonal placements examined: {n10}", True, nontrivial=False)
 
+    # ------------------------------------------------------------------ R13 a placement applied to raw vertices re-winds the faces for mirrors
+    run.rule("R13", "creation.py: a function that maps the vertices of the mesh it builds through a caller-supplied matrix with transform_points (instead of "
+                    "Trimesh.apply_transform) reverses the faces under `flips_winding(<that matrix>)`: a mirrored placement otherwise yields an inside-out solid")
+    n13 = 0
+    for f_ in ix.all_functions:
+        if f_.module.name != "trimesh.creation" or f_.parent is not None:
+            continue
+        for c_ in ast.walk(f_.node):
+            if not (isinstance(c_, ast.Call) and ast.unparse(c_.func).split(".")[-1] == "transform_points" and len(c_.args) + len(c_.keywords) >= 2):
+                continue
+            args_ = ix.call_args(c_, "trimesh.transformations.transform_points") if hasattr(ix, "call_args") else {}
+            mat = args_.get("matrix") if args_ else (c_.args[1] if len(c_.args) > 1 else None)
+            pts = args_.get("points") if args_ else (c_.args[0] if c_.args else None)
+            if not (isinstance(mat, ast.Name) and mat.id in f_.params and isinstance(pts, ast.Name)):
+                continue
+            # the mapped points become the vertices of a Trimesh built by this function
+            builds = [k_ for k_ in ast.walk(f_.node) if isinstance(k_, ast.Call) and ast.unparse(k_.func).split(".")[-1] in ("Trimesh", "trimesh_type")
+                      and any(kw_.arg == "vertices" for kw_ in k_.keywords)]
+            if not builds:
+                continue
+            n13 += 1
+            flips = [x_ for x_ in ast.walk(f_.node) if isinstance(x_, ast.If) and any(isinstance(y_, ast.Call) and ast.unparse(y_.func).split(".")[-1] == "flips_winding"
+                     and any(isinstance(n_, ast.Name) and n_.id == mat.id for n_ in ast.walk(y_)) for y_ in ast.walk(x_.test))]
+            rewinds = [x_ for x_ in flips if any(isinstance(y_, ast.Call) and ast.unparse(y_.func).split(".")[-1] in ("fliplr",) for y_ in ast.walk(x_))
+                       or any(isinstance(y_, ast.Subscript) and "::-1" in ast.unparse(y_) for y_ in ast.walk(x_))]
+            ok = bool(rewinds)
+            where_ = f"{f_.module.rel}:{c_.lineno} {f_.qualname}"
+            run.instance("R13", where_, f"`{ast.unparse(c_)[:60]}`: faces re-wound under flips_winding({mat.id}): {ok}", ok)
+            if not ok:
+                run.violation("R13", where_, f"`{f_.qualname}` places its vertices with `{ast.unparse(c_)[:60]}` and builds the mesh from the faces as they are: for a mirrored "
+                                             f"placement (det < 0) every face then points inwards - negative volume, is_volume False - for everything built on it",
+                              key=key_of("C15-R13", f_.qualname))
+    run.floor("creation functions that place raw vertices with a caller matrix", n13, 2)
     from ..interiorpt import hole_seed_rule
     hole_seed_rule(run, ix, "R11", "C15")
     from ..rigidrule import rigid_rule
